@@ -369,7 +369,8 @@ class SameMesh(Task):
 
 
 def parent_tasks(tier):
-    return [ModeDecision(True), ModeDecision(False), OffsetMap(), MatchedOffsets(), BinfileOutput(), CombineScatter(), CombineLevel("bybox"), CombineLevel("byoffset"),
+    from props.scatter_u import combine_scatter
+    return [combine_scatter(), ModeDecision(True), ModeDecision(False), OffsetMap(), MatchedOffsets(), BinfileOutput(), CombineScatter(), CombineLevel("bybox"), CombineLevel("byoffset"),
             SameMesh(1, 1), SameMesh(0, 0), SameMesh(1, 0), FieldIndices(["gamma", "alpha"], ["tau"]), FieldIndices(["beta"], ["tau", "sigma"]), FieldIndices(["alpha", "beta", "gamma"], ["sigma", "tau"])]
 
 
